@@ -1,3 +1,5 @@
+CONSTANTS
+  Dev = {}
 INIT Init
 NEXT Next
 CHECK_DEADLOCK FALSE
